@@ -166,6 +166,10 @@ func init() {
 			}
 			add(3, 0, 0, 2, 0, 0, 1, 0)
 			add(3, 1, 1, 0, 0, 0, 1, 0)
+			js = append(js, J(".", "VX_C03_TwoFrames", 1, 0), J(".", "VX_C03_TwoFrames", 1, 1))
+			if tier == "thorough" {
+				js = append(js, J(".", "VX_C03_TwoFrames", 2, 0))
+			}
 			if tier == "thorough" {
 				for _, mm := range [][]int{{0, 0}, {1, 0}, {1, 1}, {2, 0}} {
 					for vs := 0; vs <= 3; vs++ {
@@ -410,7 +414,7 @@ func init() {
 		jobs: func(tier string) []job {
 			js := []job{J("plugin/overloader", "VX_C18_ConnHistory", 1, 3, 0), J("plugin/overloader", "VX_C18_ConnHistory", 1, 3, 1), J("plugin/overloader", "VX_C18_ConnHistory", 2, 4, 0),
 				J("plugin/overloader", "VX_C18_ConnRace", 1), J("plugin/overloader", "VX_C18_ConnRace", 2),
-				J("plugin/overloader", "VX_C18_QPS", 2, 3), J("plugin/overloader", "VX_C18_QPS", 1, 1), J("plugin/overloader", "VX_C18_QPSRace", 1, 1, 1, 2), J("plugin/overloader", "VX_C18_QPSRace", 2, 2, 3, 2)}
+				J("plugin/overloader", "VX_C18_QPS", 2, 3), J("plugin/overloader", "VX_C18_QPS", 1, 1), J("plugin/overloader", "VX_C18_QPSSession", 1, 3, 0), J("plugin/overloader", "VX_C18_QPSSession", 2, 3, 1), J("plugin/overloader", "VX_C18_QPSRace", 1, 1, 1, 2), J("plugin/overloader", "VX_C18_QPSRace", 2, 2, 3, 2)}
 			if tier == "thorough" {
 				js = append(js, J("plugin/overloader", "VX_C18_ConnHistory", 2, 5, 1), J("plugin/overloader", "VX_C18_ConnHistory", 1, 5, 1), J("plugin/overloader", "VX_C18_QPSRace", 3, 3, 4, 2))
 			}
